@@ -9,6 +9,7 @@ package main
 
 import (
 	"fmt"
+	"go/token"
 	"go/types"
 	"sort"
 	"strings"
@@ -233,6 +234,7 @@ func checkC04(c *Ctx, r *Report) {
 	sort.Strings(names)
 	r.Note("unpack family slots: %s", strings.Join(names, ", "))
 
+	durationUnitRule(c, r)
 	// ---- R04d ----
 	r.Rule("R04d", "parseValidatorTags is called only by accessField on the struct tag named by options.validatorTag; every fieldOptions built in reifyStruct / validateStruct takes its validators from accessField's result", 4)
 	pvt := c.Func("", "parseValidatorTags")
@@ -495,3 +497,52 @@ func c04Exception(fn, what string) string {
 }
 
 var _ = fmt.Sprint
+
+// durationUnitRule (R04e): a unit-less number is a number of seconds, for a setting read into a
+// Duration (reifyDuration) and for a min=/max= bound of a Duration field (param2Duration) alike, and
+// fractions count: in both places the float is scaled by time.Second in the float domain and only
+// then converted. Converting first truncates the bound (min=0.5 becomes 0s) and values between the
+// truncated and the declared bound pass validation.
+func durationUnitRule(c *Ctx, r *Report) {
+	r.Rule("R04e", "every float64 -> time.Duration conversion of a setting or of a validator bound converts (number * float64(time.Second)): scaling before truncation, the same unit on both sides", 2)
+	for _, name := range []string{"reifyDuration", "param2Duration"} {
+		fn := c.TryFunc("", name)
+		if fn == nil {
+			r.add("R04e", "ucfg."+name, "anchor", "-", Undecided, true, "ANCHOR-MISSING: "+name)
+			continue
+		}
+		n := 0
+		Instrs(fn, false, func(in ssa.Instruction) {
+			cv, ok := in.(*ssa.Convert)
+			if !ok || !isNamed(cv.Type(), "time", "Duration") {
+				return
+			}
+			if b, isB := cv.X.Type().Underlying().(*types.Basic); !isB || b.Info()&types.IsFloat == 0 {
+				return
+			}
+			n++
+			form := newNF(c).Of(cv.X)
+			ok2 := form.op == "bin" && form.name == "*" && (strings.Contains(form.args[0].String(), "1000000000") || strings.Contains(form.args[1].String(), "1000000000") || strings.Contains(form.String(), "1e+09"))
+			r.Check(ok2, "R04e", c.FnName(fn), "seconds scaled before conversion", c.Pos(cv.Pos()), form.String(),
+				"a fractional number of seconds is converted to a Duration before it is scaled ("+form.String()+"): the fraction is lost, so a bound like min=0.5 becomes 0s and values below the declared bound pass")
+		})
+		// a Duration multiplied after conversion from a float is the truncating form
+		Instrs(fn, false, func(in ssa.Instruction) {
+			bo, ok := in.(*ssa.BinOp)
+			if !ok || bo.Op != token.MUL || !isNamed(bo.Type(), "time", "Duration") {
+				return
+			}
+			for _, side := range []ssa.Value{bo.X, bo.Y} {
+				if cv, ok := side.(*ssa.Convert); ok {
+					if b, isB := cv.X.Type().Underlying().(*types.Basic); isB && b.Info()&types.IsFloat != 0 {
+						n++
+						r.Bad("R04e", c.FnName(fn), "seconds scaled before conversion", c.Pos(bo.Pos()), "a float is truncated to a whole Duration unit and multiplied afterwards: the fraction of a second is lost (min=0.5 becomes 0s)")
+					}
+				}
+			}
+		})
+		if n == 0 {
+			r.add("R04e", c.FnName(fn), "seconds scaled before conversion", c.Pos(fn.Pos()), Undecided, true, "no float -> Duration conversion found in "+name)
+		}
+	}
+}
